@@ -203,6 +203,16 @@ impl Type {
     pub fn name(&self) -> Option<&str> { if self.named { Some("n") } else { None } }
     pub fn layout(&self, _: &BindgenContext) -> Option<Layout> { self.layout }
     pub fn is_union(&self) -> bool { matches!(&self.kind, TypeKind::Comp(c) if c.kind == CompKind::Union) }
+    // further predicates of the real Type (ir/ty.rs), so that a rule that starts consulting one is decided rather than failing to compile
+    pub fn is_comp(&self) -> bool { matches!(self.kind, TypeKind::Comp(..)) }
+    pub fn is_function(&self) -> bool { matches!(self.kind, TypeKind::Function(..)) }
+    pub fn is_enum(&self) -> bool { matches!(self.kind, TypeKind::Enum(..)) }
+    pub fn is_void(&self) -> bool { matches!(self.kind, TypeKind::Void) }
+    pub fn is_int(&self) -> bool { matches!(self.kind, TypeKind::Int(..)) }
+    pub fn is_float(&self) -> bool { matches!(self.kind, TypeKind::Float(..)) }
+    pub fn is_type_param(&self) -> bool { matches!(self.kind, TypeKind::TypeParam) }
+    pub fn is_template_instantiation(&self) -> bool { matches!(self.kind, TypeKind::TemplateInstantiation(..)) }
+    pub fn is_opaque_kind(&self) -> bool { matches!(self.kind, TypeKind::Opaque) }
     /// real one follows Alias/ResolvedTypeRef/TemplateAlias/TemplateInstantiation chains; one level is enough for the stub graph (children are leaves)
     pub fn canonical_type<'a>(&'a self, ctx: &'a BindgenContext) -> &'a Type {
         match self.kind { TypeKind::Alias(t) | TypeKind::ResolvedTypeRef(t) | TypeKind::TemplateAlias(t, _) => ctx.resolve_type(t), _ => self }
